@@ -141,6 +141,8 @@ def evaluate(m, plain, pos, err, mark='LATEXXXERROR'):
             elif cls == 'S' and (not b or not all(isblank(c) for c in b) or blank):
                 v.c05.append({'problem': 'words glued' if not b else ('paragraph break invented' if blank else 'separator not blank'),
                               'between': [f[i][1], f[j][1]], 'output_between': b})
+            elif cls == 'Sw' and not any(isblank(c) for c in b):
+                v.c05.append({'problem': 'words glued', 'between': [f[i][1], f[j][1]], 'output_between': b})
             elif cls == 'G' and blank:
                 v.c05.append({'problem': 'paragraph break invented', 'between': [f[i][1], f[j][1]], 'output_between': b})
     return v
